@@ -14,6 +14,13 @@ from engines.prodstub import find_production, apply_action
 from refs.readers import read_quoted_mindsdb, read_quoted_plain, read_backquoted, split_path
 import os
 
+# Stub (recorded in the evidence): CrossHair realises the argument of a str-subclass constructor, so the lexer's
+# Lexeme(value, raw) -- a str that also remembers its source text -- is modelled as its plain value here; the
+# decoded value is what C04 is about (C16 checks .raw).
+import mindsdb_sql.parser.dialects.mindsdb.lexer as _mlex
+if hasattr(_mlex, 'Lexeme'):
+    _mlex.Lexeme = lambda value, raw=None: value
+
 N = int(os.environ.get('VERIF_STRLEN', '5'))
 NDIG = int(os.environ.get('VERIF_NDIG', '6'))
 DIG_RE = re.compile(r'[0-9]+')
